@@ -620,6 +620,19 @@ func runC17(r *Run) {
 			r.Floor("R9", "divisions by the gas target", nDiv, 2)
 		}
 	}
+	r.Rule("R13", "TABLE.declared-gas-is-recorded-on-every-route: each of the three ante chains (Ethereum, Cosmos, legacy EIP-712) contains GasWantedDecorator — R4 checks what the decorator does, this checks that no route goes without it: the declared gas of transactions on a route that lacks it never enters the block's figure, and a block full of such transactions lowers the next base fee instead of raising it")
+	{
+		chains := anteChains(r)
+		for _, cn := range []string{"newEVMAnteHandler", "newCosmosAnteHandler", "newLegacyCosmosAnteHandlerEip712"} {
+			c := chains[cn]
+			if c == nil {
+				r.Bad("R13", "anchor/"+cn, "", "ante chain not found")
+				continue
+			}
+			r.Check(c.index("GasWantedDecorator") >= 0, "R13", "app/ante."+cn+"#records-declared-gas", P.Pos(fnPos(c.Ctor)), "GasWantedDecorator is in the chain",
+				"the ante chain "+cn+" has no GasWantedDecorator: the declared gas of its transactions is not added to the block's gas-wanted figure — a legacy EIP-712 transaction declaring the whole block gas limit leaves the transient counter at 0 and the next base fee falls")
+		}
+	}
 	r.Rule("R12", "FLOW.height-valued-parameters-are-rebased-by-the-zero-height-export: the fee market's EnableHeight is a height of the running chain (below it CalculateBaseFee returns nil and the declared-gas counter is not kept: the base fee is charged but never adjusted); a chain started from a zero-height export counts from 1 again, so the zero-height preparation stores a new EnableHeight and writes the fee market parameters back (SetParams) — otherwise the restarted chain freezes its base fee until it reaches the old height")
 	{
 		var prep *ssa.Function
